@@ -23,6 +23,9 @@ ASSUMPTIONS = ['process clock in UTC; every recording created and saved at the s
 T0 = dt.datetime(2024, 2, 27, 0, 0, 0)   # spans Feb 29 and a month boundary
 
 
+CAT = ['Op']        # the category the queries ask for (the random part also uses names with '/' and '%')
+
+
 def build(fake, instants, prefix, writer=None, ids=None, each=None):
     """Saves one recording per instant, advancing the harness clock; ``each(now)`` runs after every save, so queries
     whose end defaults to "now" only ever see a store whose recordings are not in the future."""
@@ -30,11 +33,11 @@ def build(fake, instants, prefix, writer=None, ids=None, each=None):
     ids = {} if ids is None else ids
     for i, t in enumerate(instants):
         fake.now = t
-        for cat in ('Op', 'OpX') if i % 7 == 0 else ('Op',):
+        for cat in (CAT[0], CAT[0] + 'X') if i % 7 == 0 else (CAT[0],):
             rec = w.create_new_recording(cat)
             rec.add_metadata({'i': i, 'even': i % 2 == 0})
             w.save_recording(rec)
-            if cat == 'Op':
+            if cat == CAT[0]:
                 ids[rec.id] = (i, t)
         if each:
             each(t)
@@ -48,7 +51,7 @@ def query(ctx, reader, fake, ids, start, end, now, flt, tag):
     ctx.case(desc, nontrivial=True)
     ctx.count('queries')
     try:
-        got = list(reader.iter_recording_ids('Op', start_date=start, end_date=end, metadata=flt))
+        got = list(reader.iter_recording_ids(CAT[0], start_date=start, end_date=end, metadata=flt))
     except Exception as ex:
         if getattr(fake, 'fail_reads', None) and 'injected' in str(ex):
             ctx.count('lookups_failing_loudly_on_a_storage_fault')      # an error the caller sees is not a wrong answer
@@ -61,7 +64,7 @@ def query(ctx, reader, fake, ids, start, end, now, flt, tag):
     if exp and (len(exp) + len(desc['start'])) % 3 == 0:
         for limit in (len(exp), len(exp) + 3):
             try:
-                rnd = list(reader.iter_recording_ids('Op', start_date=start, end_date=end, metadata=flt, limit=limit, random_results=True))
+                rnd = list(reader.iter_recording_ids(CAT[0], start_date=start, end_date=end, metadata=flt, limit=limit, random_results=True))
             except Exception as ex:
                 if not (getattr(fake, 'fail_reads', None) and 'injected' in str(ex)):
                     ctx.violation('random-order time-window listing raised %s' % type(ex).__name__, desc)
@@ -188,10 +191,12 @@ def run(ctx):
 
     # random minute-level instants
     rng = ctx.rng
-    for _ in range(ctx.budget(6, 200)):
+    for it in range(ctx.budget(7, 210)):
         fake = FakeS3()
         with fake.installed():
             prefix = rng.choice(['', 'p', 'p/q'])
+            CAT[0] = ['Op', 'planning/optimize', 'top10%drivers', 'Op', 'load%d', 'a/b/c', 'rate%'][it % 7]
+            ctx.count('category_' + CAT[0])
             # the zone the recording process runs in (windows are given in UTC, as the lookup documents)
             fake.tz_offset = dt.timedelta(hours=rng.choice([0, 0, 9, -8, 5.5, 13, -11]))
             ctx.count('process_zone_utc%+g' % (fake.tz_offset.total_seconds() / 3600.0))
@@ -227,6 +232,7 @@ def run(ctx):
                     now = s + dt.timedelta(minutes=rng.randrange(0, 600))
                     ctx.count('lookup_clock_before_window_end')
                 query(ctx, reader, fake, ids, s, e, now, rng.choice([None, None, {'even': True}]), 'random')
+    CAT[0] = 'Op'
     # a transient storage fault (throttling, read timeout) while the metadata of one recording is fetched during a filtered lookup:
     # the lookup may fail, but if it completes it must still be exact
     from vlib.fakes3 import TransientS3Error, ReadTimeoutError
